@@ -204,6 +204,7 @@ def main():
             changed_tables.append((rel, old))
     # 2. build
     obligations = discharged = 0
+    leanchecker = 'not run (thorough tier only)'
     axioms = {}
     if not a.no_build:
         rc, out = core.lake('build', 'driver')
@@ -241,6 +242,13 @@ def main():
                 infra('forbidden tokens in Lean sources: ' + '; '.join(hits[:5]))
             if problems:
                 infra('axiom audit failed: ' + '; '.join(problems))
+            if tier == 'thorough':
+                # independent re-check of the compiled theorems by the toolchain's stand-alone kernel checker
+                rc2, out2 = core.lake('env', 'leanchecker', 'TTV.Props.' + pid)
+                if rc2 != 0:
+                    infra('leanchecker rejected TTV.Props.%s: %s' % (pid, out2[-500:]))
+                leanchecker = 'ok'
+
     lock.close()
     if not os.path.exists(core.DRIVER):
         infra('driver executable missing; run the setup command first')
@@ -334,6 +342,7 @@ def main():
             'obligations': obligations, 'discharged': discharged,
             'checker_cmd': 'cd lean && lake build TTV.Props.%s && lake env lean .lake/audit_%s.lean   # kernel check + #print axioms of every theorem' % (pid, pid),
             'trusted_base': tb,
+            'leanchecker': leanchecker,
             'theorems': sorted(n for n in axioms if core.is_property_theorem(n.split('.')[-1])),
             'helper_lemmas_audited': len([n for n in axioms if not core.is_property_theorem(n.split('.')[-1])]),
             'evaluations': run.evaluations, 'distinct_nontrivial': len(run.nontrivial),
